@@ -1250,7 +1250,12 @@ class UCSReplication(MessagePassingComputation):
         # the system, all the agents it was hosting replica for must repair
         # the replication of their computations.
         if computation in self._hosted_replicas:
-            return False
+            if self._hosted_replicas[computation][0] == agent:
+                return False
+            # The replica we have was given by a former host of the
+            # computation, which has migrated since (we are now asked by its
+            # new host): forget it, it is replaced by the new host's replica.
+            self.remove_replica(computation)
 
         max_footprint = self._max_footprint() + footprint
 
